@@ -37,6 +37,7 @@ import (
 	"runtime/pprof"
 	"sort"
 	"strings"
+	"syscall"
 	"time"
 
 	"verifmc/core"
@@ -968,9 +969,9 @@ func fsSchedules(thorough bool) []fsSchedule {
 					// a confirm packet at the end makes a block of one branch stable: when that is not the
 					// current branch, the current one is cut and the node switches (to an equal or shorter fork too)
 					add(base, dx, dy, cat(o, "cy1"))
-					add(base, dx, dy, cat(o, fmt.Sprintf("cy%d", dy)))
 					add(base, dx, dy, cat(o, "cx1"))
 					if thorough {
+						add(base, dx, dy, cat(o, fmt.Sprintf("cy%d", dy)))
 						add(base, dx, dy, cat(o, fmt.Sprintf("cx%d", dx)))
 						variant = true
 						// the confirm packet right after its block, in the middle of the deliveries
@@ -1320,6 +1321,14 @@ func fsEnumerate(thorough bool, emit func(c fsCase)) {
 // driver
 
 func fsWorker(i, n int) {
+	// parts A and B run in the parent at the same time: on a busy machine they go first
+	if raw, err := syscall.Getpriority(syscall.PRIO_PROCESS, 0); err == nil {
+		nice := 20 - raw + 5 // the raw system call answers 20 - nice
+		if nice > 19 {
+			nice = 19
+		}
+		syscall.Setpriority(syscall.PRIO_PROCESS, 0, nice)
+	}
 	r := core.NewResult(prop, "model_checking")
 	out := &fsOut{counters: map[string]int64{}, tags: map[string]bool{}}
 	idx := 0
